@@ -1,7 +1,24 @@
 """C14 -- all views of the model stay mutually consistent under any edit history.
 
-Each rule shows that ONE operation preserves the registry invariant; histories
-are covered by induction over operations.
+Each rule looks at ONE operation (a registration site, a deletion method, a setter, a view accessor).  That histories are covered
+"by induction over operations" is an informal argument of the author: no code performs or checks an induction, and most rules decide
+the presence, pairing and textual order of calls, not their effect.
+
+Techniques (DESIGN 2b):
+* T1, AST pattern matching with agreement of call-site tables; registry attribute and tag are compared as text, keys are not compared:
+  R-C14-1a, -1b, -1d, -1e, -1f, -3.  R-C14-1 itself is only the family name of 1a..1g (nothing is emitted under it).
+* T1 by LINE-NUMBER ORDER of statements, not by control flow (no CFG, no dominators): R-C14-1c, -2, -4, -6, -7.  R-C14-2 decides
+  "remove_usage may raise" by the substring 'in self._usage' in unparsed if-tests; R-C14-4 takes the first raise by lineno and recognises
+  its guard by the substrings _usage / force / not / requires().
+* T1 with real CFG dominance (sa/cfg.py): R-C14-4b only.
+* presence match: R-C14-1g (the TimeSeries.pattern_name setter contains an add_usage and a remove_usage call; registry, key and order
+  are not examined).
+* R-C14-5: single-return accessors and the isinstance dispatch of __setitem__ by AST pattern; the typed generators are run by the local
+  evaluator GenEval (sa/peval subclass) once per concrete type argument -- T3, exhaustive over that finite domain.  Its adjacency clause
+  is a TEXT match: the substring `self._node_reg.get_usage(node_name)` in get_links_for_node, `.nodes()` / `.links()` in to_graph;
+  nothing is validated against the link's end nodes here (that fixture evaluation lives in C01, R-C01-2).
+* T3, exhaustive over a finite domain: R-C14-5s (abstract_setter on all 8 (start, end, new) configurations over two abstract nodes,
+  for both end-node setters; expression values are resolved by exact unparsed text).
 """
 import ast
 from ..src import (walk, calls, call_name, last_attr, dotted, norm, loc, const, AnchorError,
@@ -12,13 +29,19 @@ BASE = "wntr/network/base.py"
 ELEM = "wntr/network/elements.py"
 
 EXPLANATION = (
-    "Static registry-invariant analysis of wntr/network/{model,base,elements}.py: (R-C14-1) every add_usage(registry, tag) "
-    "site of a user class is paired with a remove_usage on the same registry with the same tag on that user's deletion path and "
-    "every setter re-registers on the registry it un-registers from; (R-C14-2) after the primary store is popped nothing that may "
-    "raise a swallowed KeyError precedes remaining bookkeeping; (R-C14-3) typed subsets added on insertion are discarded on deletion; "
-    "(R-C14-4) the 'still used' refusal precedes every mutation and is not swallowed; (R-C14-5) name lists, counts and typed "
-    "iterators of one kind read the same set, adjacency is read from node usage and validated against the link's end nodes. "
-    "Decides the invariant-preservation of each operation from the code's shape; it does not execute edit histories.")
+    "Registry bookkeeping of wntr/network/{model,base,elements}.py, decided from the shape of the code (T1 structural unless noted; mostly AST "
+    "pattern matching with registry and tag compared as text; no edit history is executed). R-C14-1 = family name of 1a-1g: (1a) every "
+    "add_usage(registry, tag) of a user class has a remove_usage with the same registry and tag in the kind's __delitem__, (1b) and conversely; "
+    "(1c) a method calling both removes on an earlier LINE than it adds; (1d, 1e, 1f) a usage key is a name, never a Pattern object or its "
+    "truthiness; (1g, presence only) the TimeSeries.pattern_name setter contains an add_usage and a remove_usage call. R-C14-2 (line-number order, "
+    "substring test 'in self._usage'): after the primary store is popped under a swallowed KeyError no remove_usage that may raise precedes "
+    "remaining bookkeeping. R-C14-3 (table agreement): typed subsets filled on insertion are discarded in __delitem__. R-C14-4 (first raise by "
+    "line number, guard by substrings _usage/force/requires()): the 'still used' refusal comes before every mutation. R-C14-4b (CFG dominance): the "
+    "registry deletion dominates every remove_control in remove_node/remove_link. R-C14-5: name list, count and typed iterator of a kind read one "
+    "typed set (AST pattern; the typed generators are run per type argument by the local evaluator GenEval: T3, exhaustive over the type "
+    "arguments); adjacency is a text match on get_links_for_node / to_graph, not validated against end nodes. R-C14-5s (T3, all 8 two-node "
+    "configurations per end-node setter): usage flags follow the link's ends. R-C14-6 / R-C14-7 (line-number order): duplicate-name refusal "
+    "precedes construction in 9 add_* methods; Link.__init__ looks up both end nodes before the first add_usage.")
 RULE_TEXT = ("one instance = one (rule, construct): a usage registration site, a deletion method, a typed subset, a view accessor; "
              "distinct = distinct constructs")
 
